@@ -15,6 +15,7 @@ EXPLANATION = (
     "entries so any mis-routing changes the matrix (float comparison, atol 1e-9). OUT OF REACH for proof: the whole-function "
     "postcondition of the 130-line Circuit.add (interacting index bookkeeping over dict orders) - stated in DESIGN.md section 5 C02."
 )
+EXPLANATION = EXPLANATION + ' ADDED IN ROUNDS 5-8. PROVED (pyvc): Circuit._add_empty_mode returns the image of the spec that was passed in (not of a copy); Circuit.heralds / _external_heralds hand out copies; Circuit.input_modes = n_modes - number of input heralds.'
 ASSUMPTIONS = ["builtin.sorted contract (ordered rearrangement with index maps)", "two input references do not alias",
                "bounded part: float comparison with atol 1e-9 on generic unitaries"]
 TRUSTED = ["z3 5.1 / cvc5 1.0.3", "pyvc encoding of the Python subset (A2; cross-checked by the mutant self-test)",
